@@ -20,7 +20,7 @@ P = {
                  "C06_repaired_examples", "C06_nonvacuous",
                  "C06_tree_add_refines", "C06_tree_delete_refines", "C06_radix_delete_refines_machine",
                  "C06_tree_invariant", "C06_tree_refines_index", "C06_tree_history_equals_fresh",
-                 "C06_tree_never_panics", "C06_tree_prune_merge_example"],
+                 "C06_tree_captures_equal_fresh", "C06_tree_never_panics", "C06_tree_prune_merge_example"],
     "streams": [{
         "name": "history", "pkg": "./internal/rules", "test": "TestVerifC06",
         "overlay": {"internal/rules/zz_verif_c06_test.go": "c06/c06_test.go"},
@@ -87,8 +87,10 @@ P = {
                   "(sortStaticChildren) are not in the transcription.  Both sides of the main equation use the same model lookup/add, so "
                   "a wrong lookup is the business of C02/C03 (Radix/TreeProofs.v: findNode = the specification's lookup) and of the "
                   "differential run. "
-                  "(2) 'exactly' is proved for the rule found; captures/key names are compared history-vs-fresh on the implementation "
-                  "only.  (3) The order clause of the statement is refuted (C06-F1), not proved; inside `dirty` only the membership-level "
+                  "(2) 'exactly': the rule found, and - for findNode as transcribed WITH key names and captures in Radix/Tree.v, run on "
+                  "the tree of C06/Tree.v - also the key names and captured values (C06_tree_captures_equal_fresh); C06/Tree.v's own "
+                  "findNode and the C06 stream carry no captures (route conditions = methodMatcher), captures are compared "
+                  "history-vs-fresh on the implementation.  (3) The order clause of the statement is refuted (C06-F1), not proved; inside `dirty` only the membership-level "
                   "theorems hold.  (4) That a rejected change leaves no trace is true of the model by construction (work on a value); "
                   "clone depth / swap-on-success are covered by the differential run only.  Open findings: C06-F1 changed rule "
                   "re-appended / reordering ignored, C06-F2 node flag = last Add, C06-F6 duplicate rule ids.  Repaired by fix: commits: "
